@@ -567,6 +567,9 @@ bool Model::on_message(int c, const std::string &text) {
 	JV j;
 	bool ok = json_parse(text, j);
 	bool alive = true;
+	// a text with an escaped NUL inside a string cannot be represented by a daemon that keeps strings as C strings: it must not be processed with the
+	// string cut short (an id, a path or an operand that silently becomes another one) - refusing the whole text like any other it cannot parse is the way out
+	if (ok && jv_has_nul(j)) { host->probe("message_with_escaped_nul"); ok = false; }
 	if (!ok || (j.t != JV::Obj && j.t != JV::Arr)) alive = false;
 	else if (j.t == JV::Obj) alive = rpc(c, j);
 	else {
